@@ -372,10 +372,22 @@ def build(spec, initialize=True, staged=None):
     derive = list(spec['derive'])
     if staged and staged[0] == 'edge' and derive:
         late_edge = derive.pop(staged[1] % len(derive))
-    g.add_edges([(nodes[s], nodes[t]) for s, t in derive])
     choices = {}
-    for cid, origin, opts in spec['sel']:
-        choices[cid] = g.add_selection_choice(cid, nodes[origin], [nodes[o] for o in opts])
+    if spec.get('order_seed') is None:
+        g.add_edges([(nodes[s], nodes[t]) for s, t in derive])
+        for cid, origin, opts in spec['sel']:
+            choices[cid] = g.add_selection_choice(cid, nodes[origin], [nodes[o] for o in opts])
+    else:
+        # construction order as a dimension: derivation edges and selection choices are added interleaved in a seeded
+        # order (the in- and out-edge iteration order of a node is the insertion order)
+        import random as _random
+        items = [('d', e) for e in derive] + [('s', c) for c in spec['sel']]
+        _random.Random(spec['order_seed']).shuffle(items)
+        for kind, it in items:
+            if kind == 'd':
+                g.add_edge(nodes[it[0]], nodes[it[1]])
+            else:
+                choices[it[0]] = g.add_selection_choice(it[0], nodes[it[1]], [nodes[o] for o in it[2]])
     for a, b in spec.get('incompat', []):
         g.add_incompatibility_constraint([nodes[a], nodes[b]])
     from adsg_core.graph.adsg_nodes import DesignVariableNode, MetricNode
